@@ -51,6 +51,13 @@ class SwitchExperimenter(experimenter.Experimenter):
       trial_copy = copy.deepcopy(trial)
       self.experimenters[exptr_index].evaluate([trial_copy])
 
+      if trial_copy.infeasible:
+        # The selected experimenter found the point infeasible: so is the trial.
+        trial.complete(
+            vz.Measurement(),
+            infeasibility_reason=trial_copy.infeasibility_reason,
+        )
+        continue
       if trial_copy.final_measurement is None:
         continue
 
